@@ -83,6 +83,7 @@ def build_case(rec, pool, variant, status_code=None):
         j = [0, 1, len(body) // 2, max(0, len(body) - 1)][variant % 4]
         faults[c.names[fat - 1][0]] = ("cut", j)
     c.payloads = payloads
+    c.tmp_missing = (fk == "notmp")       # TMPDIR names a directory that does not exist
     # (the fifth: characters with a meaning in regular expressions / format strings / shells, unbalanced)
     private = ["priv-KEY/with+chars=and space", "s3cr3t&key?x=1#frag%41", "0b9f5c3e-7d1a-4c2b-9e8f-6a5d4c3b2a1f", "ünï-çødé/ключ+鍵",
                "Zk(9pX[secret*7741  +x{2}\\d|%s$(id)`",
@@ -142,9 +143,17 @@ def expected_outputs(b, c, flags, workdir, keyfile=None):
     exp = {}
     for i, (h, _) in enumerate(c.names):
         tag = "exp%d" % i
-        pth = os.path.join(workdir, tag + ".log.gz")
+        # the reference is the redaction of the log TEXT (how the archive is cut into gzip members is a transport detail); only when the
+        # payload is not a complete archive of that text (a scripted damage) the archive itself is the input
+        data, ext = c.payloads[h], ".log.gz"
+        try:
+            if gzip.decompress(c.payloads[h]) == c.plain[h]:
+                data, ext = c.plain[h], ".log"
+        except Exception:
+            pass
+        pth = os.path.join(workdir, tag + ext)
         with open(pth, "wb") as f:
-            f.write(c.payloads[h])
+            f.write(data)
         args = ["redact", pth] + list(flags)
         outp = None
         if keyfile:
@@ -175,10 +184,10 @@ def make_tzif(path, transition, off_before, off_after):
 def run_case(b, c, workdir, flags=(), key_by="env", start=None, end=None, encrypt=False, extra_env=None):
     if c.rec["cli"]:
         obs = al.run_atlas_cli(b, c.sc, workdir, flags=flags, key_by=key_by, start=start, end=end, prepare=c.prepare, encrypt=encrypt or c.encrypt,
-                               extra_env=extra_env, out_name=getattr(c, "out_name", "out.log"))
+                               extra_env=extra_env, out_name=getattr(c, "out_name", "out.log"), tmp_missing=getattr(c, "tmp_missing", False))
         obs["level"] = "cli"
     else:
-        obs = al.run_atlas_lib(b, c.sc, workdir, start=start or 1700000000, end=end or 1700600000)
+        obs = al.run_atlas_lib(b, c.sc, workdir, start=start or 1700000000, end=end or 1700600000, tmp_missing=getattr(c, "tmp_missing", False))
         obs["level"] = "lib"
     return obs
 
